@@ -165,13 +165,80 @@ def _frame(names, rows, lazy, rs=None):
     return DataFrame(rows=rows, schema=schema)
 
 
-def _public_collect(frame, c):
+def _public_collect_raw(frame, c):
     cols = _cols(c["cols"], c.get("ckind", "list"), c.get("np"))
     if c.get("via") == "getitem":
-        return jn(frame[cols])
+        return frame[cols]
     if "limit" in c:
-        return jn(frame.collect(cols, _limit(c["limit"])))
-    return jn(frame.collect(cols))
+        return frame.collect(cols, _limit(c["limit"]))
+    return frame.collect(cols)
+
+
+def _public_collect(frame, c):
+    return jn(_public_collect_raw(frame, c))
+
+
+# results of earlier public calls the "caller" of a session still holds (seq steps with `keep`), by id
+_RESULTS = {}
+
+
+def _same_storage(a, b):
+    """Observation only: are two results of separate calls one object / do they share memory?"""
+    import numpy
+
+    if a is b:
+        return "same-object"
+    try:
+        if isinstance(a, numpy.ndarray) and isinstance(b, numpy.ndarray) and a.size and b.size and numpy.shares_memory(a, b):
+            return "shares-memory"
+    except Exception:
+        pass
+    return None
+
+
+def edit_result(res, st):
+    """What a caller does to the array a call handed it: an in-place edit of *its own* result (never of the frame).
+
+    `on`: "whole" (the object returned) or "part" (`res[k]`: one column of a many-column result, a view).  An edit the
+    values do not support (`+=` on text) raises inside numpy and is reported as such; the frame is not involved."""
+    import numpy
+
+    how = st["how"]
+    target = res
+    if st.get("on") == "part" and isinstance(res, numpy.ndarray) and res.ndim == 2 and len(res):
+        target = res[st.get("k", 0) % len(res)]
+    if how == "fill":
+        if isinstance(target, numpy.ndarray):
+            target.fill(unj(st.get("value")))
+        else:
+            for i in range(len(target)):
+                target[i] = unj(st.get("value"))
+    elif how == "slice-assign":
+        target[...] = unj(st.get("value")) if isinstance(target, numpy.ndarray) else None
+    elif how == "item":
+        flat = target.reshape(-1) if isinstance(target, numpy.ndarray) else target
+        if len(flat):
+            flat[st.get("pos", 0) % len(flat)] = unj(st.get("value"))
+    elif how == "reverse":
+        if isinstance(target, numpy.ndarray):
+            target[...] = target[..., ::-1].copy()
+        else:
+            target.reverse()
+    elif how == "sort":
+        # by the text of the values: always defined, moves the references about
+        if isinstance(target, numpy.ndarray) and target.ndim == 2:
+            for row in target:
+                row[...] = sorted(row.tolist(), key=repr, reverse=True)
+        else:
+            target[...] = sorted(list(target), key=repr, reverse=True)
+    elif how == "iadd":
+        target += unj(st.get("value", 10))
+    elif how == "upper":
+        flat = target.reshape(-1)
+        if len(flat):
+            flat[...] = [v.upper() if isinstance(v, str) else "edited:%r" % (v,) for v in flat.tolist()]
+    else:
+        raise SystemExit("bad edit")
 
 
 def _display(frame, c):
@@ -305,7 +372,23 @@ def run_step(st, frames, classes):
         f.append(entry)
         return {"ok": jn(list(f._rows[-1])), "count": len(f._rows)}
     if op == "collect":
-        return {"ok": _public_collect(frames[st["frame"]], st)}
+        raw = _public_collect_raw(frames[st["frame"]], st)
+        out = {"ok": jn(raw)}
+        shared = sorted(k for k, r in _RESULTS.items() if _same_storage(raw, r))
+        if shared:
+            out["shares"] = shared
+        if "keep" in st:
+            _RESULTS[st["keep"]] = raw
+        return out
+    if op == "edit":
+        if st["result"] not in _RESULTS:
+            return {"skip": True}
+        res = _RESULTS[st["result"]]
+        try:
+            edit_result(res, st)
+        except (TypeError, ValueError) as e:
+            return {"ok": "edit-refused:" + type(e).__name__, "after": jn(res)}
+        return {"ok": "edited", "after": jn(res)}
     if op == "derive":
         f = frames[st["frame"]]
         how = st["how"]
@@ -342,6 +425,7 @@ def run_step(st, frames, classes):
 def run_seq(case):
     frames, classes, out = {}, {}, []
     _OBJS.clear()
+    _RESULTS.clear()
     for st in case["steps"]:
         try:
             out.append(run_step(st, frames, classes))
